@@ -1,0 +1,29 @@
+// Verification hooks of the parser crate. Compiled only with `--cfg cteenergymodel_verif`; never
+// part of a normal build. With the cfg on but no simulator installed the hook is a no-op, so
+// behaviour is unchanged. The simulator (outside this repository) installs one plain function
+// pointer: `point(name)`, a scheduling point between the stages of a parse.
+
+use std::sync::atomic::{AtomicPtr, Ordering};
+
+/// Callback installed by the simulator
+pub struct Hooks {
+    pub point: fn(&'static str),
+}
+
+static HOOKS: AtomicPtr<Hooks> = AtomicPtr::new(std::ptr::null_mut());
+
+/// Installs the callback (once per process; later calls replace it)
+pub fn install(hooks: Hooks) {
+    let p = Box::into_raw(Box::new(hooks));
+    HOOKS.store(p, Ordering::SeqCst);
+}
+
+/// Scheduling point
+#[inline]
+pub fn point(name: &'static str) {
+    let p = HOOKS.load(Ordering::Acquire);
+    if !p.is_null() {
+        // Installed boxes are never freed
+        (unsafe { &*p }.point)(name);
+    }
+}
